@@ -191,6 +191,42 @@ def bypass(prog, chk):
                 f"the nested namespaced <svg> exit is reached after evaluation/processing steps ({len(pre)}) or is not guarded by name == svg && xmlns present ({conds})",
             )
     chk.floor("A13.bypass.nested", n_exit, 2, "nested namespaced-svg pass-through exit (Container, empty-element form)")
+    # the same stated as reachability: for an element named `svg` that has an `xmlns` attribute, neither function can
+    # reach a step that interprets or rebuilds it (whatever the surrounding code looks like)
+    for fn in ("<svgdx::transform::Container as svgdx::transform::EventGen>::generate_events", "<svgdx::element::SvgElement as svgdx::transform::EventGen>::generate_events"):
+        b = prog.body(fn)
+        name_eq = {}
+        for (bb, t, c) in b.call_sites(lambda c: c.decl_path in ("std::cmp::PartialEq::eq", "std::cmp::PartialEq::ne")):
+            lit = None
+            for a in t["args"]:
+                o = R.origin(b, a, carriers=dict(R.CARRIERS))
+                if o[0] == "const" and "str" in o[1]:
+                    lit = o[1]["str"]
+            if lit is not None:
+                name_eq[bb] = (lit == "svg") == (c.decl_path.endswith("::eq"))
+        xm = {bb: 1 for (bb, t, c) in b.call_sites(R.path_endswith("SvgElement::get_attr")) if (lambda o: o[0] == "const" and o[1].get("str") == "xmlns")(R.origin(b, t["args"][1], carriers=dict(R.CARRIERS)) if len(t["args"]) > 1 else ("?",))}
+        if not xm or not any(name_eq.values()):
+            chk.undecided("A13.bypass", f"{b.short}:nested-svg-untouched", b.where(), "no test of the element name against `svg` / no get_attr(\"xmlns\") found: the nested real-SVG condition is not recognisable")
+            continue
+        opt = R.option_assumption(b, xm)
+        notg = R.call_result_assumption(b, [(lambda c: c.path == EL + "::is_graphics_element", False)])  # `svg` is not in the graphics vocabulary (A15.graphics-vocabulary)
+
+        def decide(bb, t, b=b, name_eq=name_eq, opt=opt, notg=notg):
+            o = R.origin(b, t["op"], carriers={})
+            neg = False
+            if o[0] == "rv" and o[1].get("k") == "unop" and o[1].get("op") == "Not":
+                neg = True
+                o = R.origin(b, o[1]["a"], carriers={})
+            if o[0] == "call" and o[1] in name_eq:
+                tt, ft = R.switch_targets_bool(t)
+                return [tt] if (name_eq[o[1]] != neg) else [ft]
+            r = notg(bb, t)
+            return r if r is not None else opt(bb, t)
+
+        touching = {x for (x, t, c) in b.call_sites(lambda c: c.path in PROCESSING or c.path == PE or c.path == EL + "::set_attr" or c.path.endswith("AttrMap::insert") or (c.path.endswith("generate_events") and "OtherElement" in c.path))}
+        touching |= {x for x, i, st in b.all_stmts() if st.get("rv", {}).get("k") == "aggr" and st["rv"].get("adt") == "svgdx::events::OutputEvent" and st["rv"].get("variant") in ("Start", "Empty")}
+        hit = R.may_reach(b, touching, decide)
+        chk.ob(not hit, "A13.bypass", f"{b.short}:nested-svg-untouched", b.where(), "for an element named svg with an xmlns attribute no evaluation / rebuilding step is reachable: it is emitted as its raw input events", f"{b.short} can evaluate or rebuild (eval_attributes / set_attr / a new Start or Empty event / OtherElement) an <svg> element that carries xmlns: embedded real SVG is no longer passed through as written")
     # is_real_svg skips non-element events
     irs = prog.body("svgdx::transform::is_real_svg")
     chk.touch(irs)
